@@ -3,4 +3,5 @@ import HermesModel.Generated.Facts
 import HermesModel.Num
 import HermesModel.Partition
 import HermesModel.Proto
+import HermesModel.Substeps
 import HermesModel.Water
